@@ -183,6 +183,17 @@ def check(c):
     require(abs(st_["mean"] - mean) <= 1e-9 * abs(mean) + 1e-12 * sc and abs(st_["variance"] - var) <= 1e-9 * var + 1e-12 * sc * sc and
             abs(st_["std_error"] - math.sqrt(var / len(w))) <= 1e-9 * math.sqrt(var / len(w)) + 1e-12 * sc and st_["num_samples"] == len(w),
             "statistics", "statistics_from_samples of the composite are not those of the combined per-sample values", got={k: st_[k] for k in st_}, mean=mean, var=var)
+    # history on the same objects: the batch tensor is advanced IN PLACE (as the chain-based statistics routines do with their chains) and
+    # then the state's parameters are changed in place; the composite must follow both
+    samples.copy_(1 - samples)
+    for step in ("batch advanced in place", "parameters changed in place"):
+        if step.startswith("parameters"):
+            for p_ in state.rbm_am.parameters():
+                p_.data.mul_(0.5)
+        g2 = obs.apply(state, samples).double()
+        w2 = interp(e, state, samples)
+        require(bool(torch.all((g2 - w2).abs() <= 1e-12 * w2.abs() + 1e-12 * min(1.0, float(w2.abs().max()) + 1e-30))), "apply:value:after-inplace-change",
+                f"composite.apply on the same tensor object after the {step} is not the arithmetic on the leaves' current values", got=g2.tolist(), want=w2.tolist(), symbol=str(obs))
     refl = has(e, lambda x: "op" in x and "num" in x["l"] and x["op"] in "-*")
     sub_ = has(e, lambda x: x.get("op") == "-")
     return {"nontrivial": depth(e) >= 3 and refl and sub_, "labels": [f"depth={min(depth(e), 6)}", "type=" + c["type"]] + (["reflected"] if refl else [])}
